@@ -82,15 +82,17 @@ theorem fields_nonempty (uc : UC) (x : Bytes) : ∀ f ∈ (firstAndFields uc x).
 
 /-- The measurements `vals` reported for the value/unit fields `ms`: pairwise, the value text
 `v` is read to a float `x` by the (fully mirrored) model of the reader's `atof`; under C03's two
-hypotheses on the numeral — exponent literal below 10000, not in the class of finding N3 (more
-than 800 significant digits) — `x` is the SPECIFIED, correctly rounded value `parseFloatSpec v`;
+hypotheses on the numeral — exponent literal below 100000 or a `Moderate` mantissa text (the
+complement is known finding N3E), not in the class of finding N3 (more than 800 significant
+digits) — `x` is the SPECIFIED, correctly rounded value `parseFloatSpec v`;
 and what is reported is C04's SPECIFICATION `Spec.Tidy.report x u`: base unit, value times
 factor, the written pair kept exactly when the unit changed. -/
 inductive Reported : List Bytes → List Val → Prop
   | nil : Reported [] []
   | cons (v u : Bytes) (ms : List Bytes) (val : Val) (vals : List Val) (x : F64.Bits) :
       (Num.readerAtofMirror v).toExcept = .ok x →
-      (C03.expLit v < 10000 → Num.inClassN3 v = false → Spec.NumText.parseFloatSpec v = .ok x) →
+      ((C03.expLit v < 100000 ∨ C03.Moderate v) → Num.inClassN3 v = false →
+        Spec.NumText.parseFloatSpec v = .ok x) →
       (val.value, val.unit, val.origValue, val.origUnit) = Spec.Tidy.report x u →
       Reported ms vals → Reported (v :: u :: ms) (val :: vals)
 
@@ -144,7 +146,7 @@ theorem measurements_closed (uc : UC) : ∀ (ms : List Bytes) (vals : List Val),
           (measurements_closed uc ms vs
             (fun f hf => hne f (List.mem_cons_of_mem _ (List.mem_cons_of_mem _ hf))) hm)
         intro hlit hN3
-        rw [← C03.reader_atof_mirror_correct v hv hlit hN3]; exact hx
+        rw [← C03.reader_atof_mirror_correct_ext v hv hlit hN3]; exact hx
 
 theorem closedAtoi_ok {s : Bytes} {n : Int} (h : closedAtoi s = .ok n) :
     Spec.NumText.parseIntSpec s = .ok n := by
@@ -251,8 +253,8 @@ closed reader reports stems from the line whose number it carries; that line sta
 `Benchmark`, its first piece is the reported name, its next field denotes exactly the reported
 iteration count (C03 `parseIntSpec`), and the reported measurements are `Reported` for the
 remaining fields — i.e. each value is the CORRECTLY ROUNDED float64 of its numeral
-(`parseFloatSpec`, under exactly C03's two hypotheses on that numeral: exponent literal < 10000,
-not in class N3) tidied per C04's specification. (Lines that do not parse yield a positioned
+(`parseFloatSpec`, under exactly C03's two hypotheses on that numeral: exponent literal < 100000
+or `C03.Moderate` mantissa text, and not in class N3) tidied per C04's specification. (Lines that do not parse yield a positioned
 `SyntaxError` or nothing: `C03.errors_become_syntax_errors`, `reader_refines_spec`.) -/
 theorem closed_values_correctly_rounded (uc : UC) (fileName text : Bytes) (r : Res)
     (hr : Rec.result r ∈ Reader.closed uc fileName text) :
